@@ -520,14 +520,16 @@ def _g_pos(rng, D, n, dup, latlon=False):
     if latlon:
         pos = np.vstack([rng.uniform(-80, 80, size=n), rng.uniform(-170, 170, size=n)])
     elif rng.random() < 0.6:
-        pos = rng.integers(0, 4, size=(D, n)).astype(float)      # lattice: exact ties with bin edges
+        # lattice: exact ties of distances with (integer) bin edges; pairwise distinct unless dup
+        hi = 4 if 4 ** D >= 3 * max(n, 1) else 3 * n
+        while True:
+            pos = rng.integers(0, hi, size=(D, n)).astype(float)
+            if dup or len({tuple(c) for c in pos.T}) == n:
+                break
     else:
         pos = rng.normal(size=(D, n))
-    if n >= 2:
-        if dup:
-            pos[:, int(rng.integers(1, n))] = pos[:, 0]
-        else:
-            pos[0, :] += np.arange(n) * 2.0 ** -7                   # pairwise distinct points
+    if n >= 2 and dup:
+        pos[:, int(rng.integers(1, n))] = pos[:, 0]
     return pos
 
 
